@@ -1,4 +1,4 @@
 SPECIFICATION Spec
 INVARIANT Agreement ControlFromRuleText AtMostOncePerUse StackBound ResultsWellFormed OnlyNeeded TernIsIf ExactLogOrder NoLeak ExportCases
-PROPERTY InputsImmutable
+PROPERTY InputsImmutable LogAppendOnly ErrorsOnlyUnwind StackDiscipline HistoryGrows DoneIsFinal RetConsumed
 CHECK_DEADLOCK TRUE
